@@ -488,6 +488,14 @@ pub fn run_c18(tier: &str, root: &Path) -> Value {
             v["targets"][1]["path"] = json!("pkg/caf\u{e9}-\u{1F680}");
             v
         }),
+        ("punct3", {
+            // strings that look like syntax to anything but a JSON parser: an escaped quote followed by `//`,
+            // comment openers, a hash, a backslash, braces and a colon
+            let mut v = base_config(3, None);
+            v["targets"][1]["path"] = json!("hw/19\"-rack");
+            v["targets"][2]["uses"] = json!(["hw/19\"-rack//lib", "a // b", "/* c */ #d", "back\\slash\\\"//x", "{\"k\": [1, 2]} // y"]);
+            v
+        }),
         ("t40", base_config(40, None)),
         ("t300", base_config(300, None)),
     ];
@@ -598,7 +606,7 @@ pub fn run_c18(tier: &str, root: &Path) -> Value {
     rep.finish(
         "bases {3 targets with uses/ignores/sequences/server, 40 targets, 300 targets} x serialisations {compact, pretty(2 spaces), pretty(tab)} x {as is, trailing newline, CRLF} x string spellings {as is, escaped solidus, \\u escapes for non-ASCII, \\u escapes for every character} x whitespace padding to total sizes {4096, 8191, 8192, 8193, 16384, 65535, 65536, 65537, 262144} at {start, after first brace, between two targets, end}; for the small base (which contains a 2-byte and a 4-byte UTF-8 character) also paddings that put every byte of those characters on every multiple of 8192 up to 64 KiB, every top-level key permutation (quick: every 7th) and every per-target key order; oracle: every serialisation is accepted by Config::new+check and yields the same configuration value as the compact form; non-trivial = serialisations larger than 8192 bytes",
         true,
-        json!({"bases": 3, "pad_sizes": sizes}),
+        json!({"bases": 4, "pad_sizes": sizes}),
     )
 }
 
